@@ -162,7 +162,7 @@ class CacheWarmer(Entity):
 
         # Create initial warming event
         return Event(
-            time=Instant.Epoch,  # Will be scheduled at current time
+            time=self.now if self._clock is not None else Instant.Epoch,
             event_type="cache_warm",
             target=self,
             context={"action": "warm_next"},
